@@ -1583,7 +1583,9 @@ def q_wtclient_frames(o, tier):
         if len(n) != 1:
             missing.append(m)
             continue
+        # only calls that change the database count: an extra read (load_*, exists_*) cannot destroy another record
         got = {c.split('::')[-1] for c in _fn_calls(funcs[n[0]]) if c.startswith('DBM::')}
+        got = {g for g in got if re.match(r'^(store|delete|remove|update|batch|drop|clear|insert|replace)', g) or g in want}
         rows.append((m, sorted(got), sorted(want)))
     if missing:
         return {'verdict': 'inconclusive', 'reason': 'WTClient methods not found: %s' % missing}
@@ -1594,7 +1596,7 @@ def q_wtclient_frames(o, tier):
     if v == 'sat':
         bad = [r for r in rows if r[1] != r[2]]
         for r in bad:
-            failed.append({'description': 'WTClient::%s calls the client database methods %s, expected exactly %s' % r,
+            failed.append({'description': 'WTClient::%s changes the client database through %s, expected exactly %s' % r,
                            'function': 'WTClient::%s' % r[0]})
     return {'verdict': 'fails' if failed else 'holds', 'failed': failed, 'queries': 1, 'solver_s': dt,
             'witness': {r[0]: r[1] for r in rows}, 'functions': ['watchtower_plugin::wt_client::WTClient::*']}
